@@ -34,12 +34,25 @@ def run(cx):
             ok = bool(re.search(r'<Instant as Add<Duration>>::add\(arg4,', t)) and t.startswith('Cache::insert(arg1.cache,arg2,Entry(')
             cx.check('C15.S1', ok, f.path, s.key(), 'valid_until=now+ttl', t[:160], s.loc)
             cx.check('C15.S1', 'ResponseCache::clamp_positive_ttls(arg1,arg2.query_type,arg3@Ok.0)' in t, f.path, s.key(), 'positive-lifetime-from-clamp(query type)', t[:200], s.loc)
-            cx.check('C15.S1', bool(re.search(r'Ord::clamp\(Duration::from_secs\(into<u64>\(arg3@Err\.0@Dns\.0@NoRecordsFound\.0\.negative_ttl@Some\.0\)\),RangeInclusive::into_inner\(TtlConfig::negative_response_ttl_bounds\(arg1\.ttl_config,arg2\.query_type\)\)\.0,RangeInclusive::into_inner\(TtlConfig::negative_response_ttl_bounds\(arg1\.ttl_config,arg2\.query_type\)\)\.1\)', t)),
+            NB = r'RangeInclusive::into_inner\(TtlConfig::negative_response_ttl_bounds\(arg1\.ttl_config,arg2\.query_type\)\)'
+            NT = r'arg3@Err\.0@Dns\.0@NoRecordsFound\.0\.negative_ttl'
+            mo = prog.fns.get(R + 'ResponseCache::insert::{closure@map_or#0}')
+            if mo is not None and re.search(rf'Option::map_or\({NT},', t):
+                # combinator form: negative_ttl.map_or(negative_min, |secs| from_secs(secs).clamp(negative_min, negative_max))
+                cx.fn('C15.S1', mo.path)
+                rets = cx.returns(mo, r'.')
+                NBc = NB.replace('arg1', r'\^arg1').replace('arg2', r'\^arg2')
+                okc = len(rets) == 1 and bool(re.search(rf'^Ord::clamp\(Duration::from_secs\(into<u64>\(arg2\)\),{NBc}\.0,{NBc}\.1\)$', rets[0].term))
+                cx.check('C15.S1', okc, f.path, s.key(), 'negative-lifetime-clamped-with-negative-bounds(query type)', '; '.join(r.term[:200] for r in rets), s.loc)
+                cx.check('C15.S1', bool(re.search(rf'Option::map_or\({NT},{NB}\.0,closure:ResponseCache::insert::\{{closure@map_or#0\}}\)', t)),
+                         f.path, s.key(), 'negative-default-is-negative_min', t[:240], s.loc)
+                continue
+            cx.check('C15.S1', bool(re.search(rf'Ord::clamp\(Duration::from_secs\(into<u64>\({NT}@Some\.0\)\),{NB}\.0,{NB}\.1\)', t)),
                      f.path, s.key(), 'negative-lifetime-clamped-with-negative-bounds(query type)', t[:240], s.loc)
-            cx.check('C15.S1', bool(re.search(r'\|RangeInclusive::into_inner\(TtlConfig::negative_response_ttl_bounds\(arg1\.ttl_config,arg2\.query_type\)\)\.0\)', t)),
+            cx.check('C15.S1', bool(re.search(rf'\|{NB}\.0\)', t)),
                      f.path, s.key(), 'negative-default-is-negative_min', t[:240], s.loc)
-        cl = cx.calls(f, r'Ord::clamp$')
-        cx.guard('C15.S1', cl, {'negative-ttl-present': r'^ok\(arg3@Err\.0@Dns\.0@NoRecordsFound\.0\.negative_ttl\)$'}, expect=1, fn=f)
+            cl = cx.calls(f, r'Ord::clamp$')
+            cx.guard('C15.S1', cl, {'negative-ttl-present': r'^ok\(arg3@Err\.0@Dns\.0@NoRecordsFound\.0\.negative_ttl\)$'}, expect=1, fn=f)
     g = cx.fn('C15.G1', R + 'ResponseCache::get')
     if g:
         some = cx.returns(g, r'^Option::Some\(')
@@ -50,15 +63,19 @@ def run(cx):
     if ic:
         r = cx.returns(ic, r'.')
         cx.check('C15.G1', len(r) == 1 and r[0].term == 'le:Instant(arg2,arg1.valid_until)', ic.path, 'ret', 'now<=valid_until', '; '.join(s.term for s in r))
-    et = cx.fn('C15.S1', R + 'Entry::ttl')
+    # the remaining lifetime is computed by the private helper Entry::ttl, or in the hooks themselves when the helper is written out
+    hooks = prog.find(r'cache::EntryExpiry as .*Expiry<.*>>::expire_after_(create|update)$')
+    via_helper = prog.fn(R + 'Entry::ttl') is not None or any('Entry::ttl(' in x.term for h in hooks for x in cx.returns(h, r'.'))
+    et = cx.fn('C15.S1', R + 'Entry::ttl') if via_helper else None
     if et:
         r = cx.returns(et, r'.')
         cx.check('C15.S1', len(r) == 1 and r[0].term == 'Instant::saturating_duration_since(arg1.valid_until,arg2)', et.path, 'ret', 'remaining=valid_until-t', '; '.join(s.term for s in r))
     n = 0
-    for h in prog.find(r'cache::EntryExpiry as .*Expiry<.*>>::expire_after_(create|update)$'):
+    for h in hooks:
         n += 1
         r = cx.returns(h, r'.')
-        cx.check('C15.S1', len(r) == 1 and r[0].term == 'Option::Some(Entry::ttl(arg3,arg4))', h.path, 'ret', 'expiry-mirrors-valid_until', '; '.join(s.term for s in r))
+        cx.check('C15.S1', len(r) == 1 and r[0].term in ('Option::Some(Entry::ttl(arg3,arg4))', 'Option::Some(Instant::saturating_duration_since(arg3.valid_until,arg4))'),
+                 h.path, 'ret', 'expiry-mirrors-valid_until', '; '.join(s.term for s in r))
     cx.floor('C15.S1', n, 2, 'moka Expiry hooks')
     # ---------------------------------------------------------------- clamp_positive_ttls
     c = cx.fn('C15.S1', R + 'ResponseCache::clamp_positive_ttls')
@@ -72,8 +89,8 @@ def run(cx):
             cx.check('C15.S1', ok, c.path, s.key(), 'record-ttl-clamped-with-its-own-type-bounds', s.term[:220], s.loc)
             cx.guard('C15.S1', [s], {'all-three-sections': r"^ok\(<Chain<A;B> as Iterator>::next\(Iterator::chain\(Iterator::chain\(slice::iter_mut\(arg3\.answers\),slice::iter_mut\(arg3\.authorities\)\),slice::iter_mut\(arg3\.additionals\)\)\)\)$"}, fn=c)
         r = cx.returns(c, r'.')
-        want = (r'^Ord::clamp\(Option::unwrap_or\(Iterator::min\(Iterator::map\(Iterator::filter\(Message::all_sections\(arg3\),closure:ResponseCache::clamp_positive_ttls::\{closure@filter#0\}\),'
-                r'closure:ResponseCache::clamp_positive_ttls::\{closure@map#0\}\)\),RangeInclusive::into_inner\(TtlConfig::positive_response_ttl_bounds\(arg1\.ttl_config,arg2\)\)\.0\),'
+        want = (r'^Ord::clamp\(Option::unwrap_or\(Iterator::min\(Iterator::map\(Iterator::filter\(Message::all_sections\(arg3\),closure:(?:ResponseCache::clamp_positive_ttls|cache::\w+)::\{closure@filter#0\}\),'
+                r'closure:(?:ResponseCache::clamp_positive_ttls|cache::\w+)::\{closure@map#0\}\)\),RangeInclusive::into_inner\(TtlConfig::positive_response_ttl_bounds\(arg1\.ttl_config,arg2\)\)\.0\),'
                 r'RangeInclusive::into_inner\(TtlConfig::positive_response_ttl_bounds\(arg1\.ttl_config,arg2\)\)\.0,RangeInclusive::into_inner\(TtlConfig::positive_response_ttl_bounds\(arg1\.ttl_config,arg2\)\)\.1\)$')
         cx.check('C15.S1', len(r) == 1 and bool(re.search(want, r[0].term)), c.path, 'ret', 'lifetime=clamp(min(filtered ttls) or min, query-type bounds)', r[0].term[:300] if r else 'none')
         if st and r:
@@ -98,6 +115,18 @@ def run(cx):
     ELAPSED = r'Result::unwrap_or\(num::try_from\(Duration::as_secs\(Instant::saturating_duration_since\(arg2,arg1\.original_time\)\)\),const:num::MAX\)'
     if u:
         dec = cx.calls(u, r'Record<R>::decrement_ttl$|Record::decrement_ttl$')
+        # combinator form of a countdown loop: `<records>.for_each(|record| record.decrement_ttl(elapsed))` - the for_each call stands
+        # for the decrement of every record it ranges over when its closure decrements its own parameter by the captured elapsed time
+        ELC = ELAPSED.replace('arg2', r'\^arg2').replace(r'arg1\.', r'\^arg1\.')
+        for fe in cx.calls(u, r'Iterator::for_each$'):
+            m = re.search(r',closure:Entry::updated_ttl::(\{closure@for_each#\d+\})\)$', fe.term)
+            sub = prog.fns.get(u.path + '::' + m.group(1)) if m else None
+            if sub is not None:
+                cs = cx.calls(sub, r'Record<R>::decrement_ttl$|Record::decrement_ttl$')
+                # the closure decrements its own parameter, by the captured elapsed time, unconditionally
+                if len(cs) == 1 and re.search(rf'^Record::decrement_ttl\(arg2,{ELC}\)$', cs[0].term) and not cx.has_guard(cs[0], r'.'):
+                    fe.term = fe.term[:-1] + ',' + cs[0].term.split(',', 1)[1].replace('^', '')
+                    dec.append(fe)
         cx.floor('C15.W1', len(dec), 2, 'decrement_ttl calls in updated_ttl')
         for s in dec:
             cx.check('C15.W1', bool(re.search(rf',{ELAPSED}\)$', s.term)), u.path, s.key(), 'decrement-by-elapsed', s.term[-150:], s.loc)
